@@ -123,12 +123,15 @@ static struct {
 static int mc_nsig = 0;
 static long long mc_nviol = 0;
 
+static int mc_mute; /* set while a harness re-creates context for a replay: nothing is recorded */
 static void
 mc_viol(const char *sig, const char *casedesc, const char *fmt, ...)
 {
     char buf[2048];
     va_list ap;
     int i;
+    if (mc_mute)
+        return;
     mc_nviol++;
     mc_shared_viol();
     for (i = 0; i < mc_nsig; i++)
